@@ -117,8 +117,8 @@ def corpus_strings() -> list[str]:
 def run(tier: str, seed: int, rep: Report, model: Model) -> dict:
     rnd = rng_for("C06", seed)
     L = 3 if tier == "quick" else 4
-    n_mut = depth(tier, 4000, 60000)
-    n_noise = depth(tier, 1500, 20000)
+    n_mut = depth(tier, 4000, 150000)
+    n_noise = depth(tier, 1500, 50000)
     strings: list[str] = []
     corpus = corpus_strings()
     strings += corpus
